@@ -35,6 +35,14 @@ def step (ws : List String) : String :=
     let cp := comp == "1"
     let full := Cmp.stored cp (hexArg sk) (natArg sc)
     s!"lxcmp {sgn (Cmp.lxCmp m cp full (hexArg k) (natArg c2))}"
+  | ["lxcmp2", mode, comp, s1, c1, s2, c2, k, kc] =>
+    -- two stored keys in one node, one of them deleted again: the node compares like the remaining key
+    let m := modeOf mode
+    let cp := comp == "1"
+    let f1 := Cmp.stored cp (hexArg s1) (natArg c1)
+    let f2 := Cmp.stored cp (hexArg s2) (natArg c2)
+    if Cmp.cmpKeys m cp f1 (hexArg s2) (natArg c2) == 0 then "lxcmp2 same same"
+    else s!"lxcmp2 {sgn (Cmp.lxCmp m cp f2 (hexArg k) (natArg kc))} {sgn (Cmp.lxCmp m cp f1 (hexArg k) (natArg kc))}"
   | _ => "bad-op"
 
 end Drv.C19
